@@ -319,14 +319,14 @@ namespace {
       // ever freeing them.
       vf::env::set_alloc(Alloc::Ascending);
       if (flavours & 1) {
-         if (cmps & 1) run_owning<CInt>(seq, universe, check_every);
-         if (cmps & 2) run_owning<CAddr>(seq, universe, check_every);
-         if (cmps & 4) run_owning<CLex>(seq, universe, check_every);
+         if (cmps & 1) { opt.kick(); run_owning<CInt>(seq, universe, check_every); }
+         if (cmps & 2) { opt.kick(); run_owning<CAddr>(seq, universe, check_every); }
+         if (cmps & 4) { opt.kick(); run_owning<CLex>(seq, universe, check_every); }
       }
       if (flavours & 2) {
-         if (cmps & 1) run_chain<CInt>(seq, universe, check_every);
-         if (cmps & 2) run_chain<CAddr>(seq, universe, check_every);
-         if (cmps & 4) run_chain<CLex>(seq, universe, check_every);
+         if (cmps & 1) { opt.kick(); run_chain<CInt>(seq, universe, check_every); }
+         if (cmps & 2) { opt.kick(); run_chain<CAddr>(seq, universe, check_every); }
+         if (cmps & 4) { opt.kick(); run_chain<CLex>(seq, universe, check_every); }
       }
       vf::env::set_alloc(Alloc::Malloc);
       vf::env::arena_reset();
